@@ -516,3 +516,10 @@ CORPUS += [
     V("C08", "mcp-covered-indicator-never-true", _MCE, "        covered_items = (chosen_items > 0).float()", "        covered_items = (chosen_items < 0).float()", "C08.d"),
     V("C08", "eq-mcp-covered-indicator-mirrored", _MCE, "        covered_items = (chosen_items > 0).float()", "        covered_items = (0 < chosen_items).float()", None),
 ]
+CORPUS += [
+    V("C10", "tanh-clip-never-applied", _DECO, "    if tanh_clipping > 0:\n", "    if tanh_clipping < 0:\n", "C10.a"),
+    V("C10", "top-k-filter-never-applied", _DECO, "    if top_k > 0:\n        top_k = min(", "    if top_k < 0:\n        top_k = min(", "C10.a"),
+    V("C10", "top-p-filter-enabled-at-zero", _DECO, "    if top_p > 0:\n        assert top_p", "    if top_p >= 0:\n        assert top_p", "C10.a"),
+    V("C10", "mask-stage-inverted-flag", _DECO, "    if mask_logits:\n        assert mask is not None", "    if not mask_logits:\n        assert mask is not None", "C10"),
+    V("C10", "eq-top-k-guard-mirrored", _DECO, "    if top_k > 0:\n        top_k = min(", "    if 0 < top_k:\n        top_k = min(", None),
+]
